@@ -447,8 +447,11 @@ def compare_csr(ref_events, sub_events, decls: dict[str, AccDecl], ignore_writes
                     return f"segment {k}: at launch of {x[1]} the value in effect for {f} is {got!r}, the configured value is {v!r}"
         elif x[0] in ("w", "lw"):
             if x[1] != y[1]:
-                miss = [e for e in x[1] if e not in y[1]]
-                extra = [e for e in y[1] if e not in x[1]]
+                from collections import Counter
+
+                cx, cy = Counter(map(repr, x[1])), Counter(map(repr, y[1]))
+                miss = list((cx - cy).elements())  # multiset difference: a write issued once too few shows up as well
+                extra = list((cy - cx).elements())
                 return f"segment {k} ({x[0]}): missing {miss[:3]!r} unexpected {extra[:3]!r}"
         elif x[0] == "launch":
             d = decls[x[1]]
